@@ -42,8 +42,10 @@ def run(rep, pdb, tier):
         # ---- shape
         shape = same_dim(pdb, ctx, c, F(jac, "rows"), m_t) and same_dim(pdb, ctx, c, F(jac, "cols"), n_t)
         tail = fn["body"].get("expr")
-        ret = tail is not None and ctx.term(tail) == jac
-        rep.add("shape/%s" % short, "jac = Matrix::new(m, n, 0) with m = len(func(point)) rows and n = len(point) columns, in that order, and jac is returned", shape and ret, c, "m x n=%s returned=%s" % (shape, ret))
+        rets = [n for n in walk(fn["body"]) if n.get("k") == "Ret" and not any(a.get("k") == "Closure" for a in ancestors(n))]
+        ret = tail is not None and ctx.term(tail) == jac and not rets
+        rep.add("shape/%s" % short, "jac = Matrix::new(m, n, 0) with m = len(func(point)) rows and n = len(point) columns, in that order, and jac is what is returned on every path "
+                "(no early return hands the job to another scheme for some step sizes or shapes)", shape and ret, rets[0] if rets else c, "m x n=%s returned=%s early returns=%d" % (shape, tail is not None and ctx.term(tail) == jac, len(rets)))
         # ---- columns: full range, column index = loop variable
         full = r[1:5] == (num(0), n_t, False, False)
         rep.add("columns/%s" % short, "for i over the full range 0..n column i is stored with set_col(i, ..)", full and args[1] == i, c, "range %s..%s set_col(%s, ..)" % (show(r[1], ctx), show(r[2], ctx), show(args[1], ctx)))
